@@ -6,8 +6,9 @@ keystroke schedule) the fault-free execution is run first; it makes N numbered e
 draw() every stdout write / flush / sleep).  Then the same execution is repeated once per
 (k in 1..N) x {exception INSTEAD of call k, exception right AFTER call k} x exception kind.
 Oracle: the tty's struct termios after the operation returned or raised == before, byte for byte.
-Excluded by definition: a fault injected instead of the restoring tcsetattr itself (the call whose
-argument is the initial attribute set, made while the attributes differ, with no later tty call).
+Excluded by definition: a fault injected instead of a restoring tcsetattr itself (a tcsetattr whose
+argument is the attribute set found on entry, made while the attributes differ, and after which the
+(sub-)operation does no more terminal I/O before the next attribute change or its end).
 """
 from __future__ import annotations
 
@@ -93,6 +94,7 @@ def execute(case, chooser, fault=None):
         tty.pending.extend(KEYS)
     elif inp == "typeahead":
         tty.inq.extend(b"abcde")
+    tty.log_calls = fault is None            # the fault-free run records its environment calls
     st = dict(fired=False, changed_at_fault=False)
     init = M.norm_attrs(tty.attrs)
     stdout = clock = None
@@ -158,14 +160,44 @@ def execute(case, chooser, fault=None):
         outcome=outcome, diff=M.attrs_diff(tty.initial_attrs, tty.attrs), ncalls=tty.ncalls,
         npoints=stdout.npoints if stdout is not None else 0, fired=st["fired"],
         changed_at_fault=st["changed_at_fault"], fault_kind=getattr(tty, "fault_kind", None),
-        excluded=bool(fault and fault["dev"] == "tty" and fault["mode"] == "instead" and tty.restoring_instead
-                      and tty.ncalls == fault["k"]),
+        restoring=restoring_calls(tty) if fault is None else None,
         choices=list(chooser.choices), trace=tuple(tty.trace), changed_ever=tty.changed_ever,
         plan_kind=getattr(plan, "fired_kind", None) if plan else None)
 
 
+IO_CALLS = ("select", "read", "write", "more")
+
+
+def restoring_calls(tty):
+    """Indices of the *restoring* tcsetattr calls of a fault-free execution: a tcsetattr whose argument
+    is the attribute set found on entry, made while the attributes differ from it, and after which
+    the operation does no more terminal I/O before it changes the attributes again or ends (i.e. the
+    call with which a (sub-)operation gives the terminal back).  A fault *instead of* such a call is
+    the one case the property excludes by definition."""
+    init = M.norm_attrs(tty.initial_attrs)
+    cur = init
+    out = []
+    calls = tty.calls
+    for i, (n, kind, detail) in enumerate(calls):
+        if kind != "tcsetattr":
+            continue
+        new = M.norm_attrs(detail[1])
+        if new == init and cur != init:
+            restoring = True
+            for _, k2, _ in calls[i + 1:]:
+                if k2 == "tcsetattr":
+                    break
+                if k2 in IO_CALLS:
+                    restoring = False
+                    break
+            if restoring:
+                out.append(n)
+        cur = new
+    return out
+
+
 # ---------------------------------------------------------------------------------- oracle
-def judge(col, case, choices, fault, obs, nofault_points=None):
+def judge(col, case, choices, fault, obs, nofault_points=None, restoring=()):
     col.count()
     if fault:
         if not obs["fired"]:
@@ -175,7 +207,7 @@ def judge(col, case, choices, fault, obs, nofault_points=None):
                 raise world.HarnessError(f"fault {fault} never fired in {case}")
             return
         col.inc("fault_executions")
-        if obs["excluded"]:
+        if fault["dev"] == "tty" and fault["mode"] == "instead" and fault["k"] in restoring:
             col.inc("excluded_fault_instead_of_restoring_tcsetattr")
             return
         if obs["changed_at_fault"]:
@@ -233,7 +265,7 @@ def enumerate_schedules(col, case):
         col.max("env_calls_per_execution", obs["ncalls"] + obs["npoints"])
         col.inc("fault_points", obs["ncalls"] + obs["npoints"])
         col.inc("schedules")
-        items.append((case, choices, obs["ncalls"], obs["npoints"]))
+        items.append((case, choices, obs["ncalls"], obs["npoints"], obs["restoring"]))
 
     explore.ChoiceTree(lambda ch: execute(case, ch), case.get("bound", 0), on_exec=on_exec).explore()
     return items
@@ -241,13 +273,13 @@ def enumerate_schedules(col, case):
 
 def inject_all(col, item):
     """Phase 2: one fault at every environment call of one fault-free execution."""
-    case, choices, ncalls, npoints = item
+    case, choices, ncalls, npoints, restoring = item
     excs = case.get("excs", ["KeyboardInterrupt"])
     for k in range(1, ncalls + 1):
         for mode in ("instead", "after"):
             for exc in excs:
                 f = dict(dev="tty", k=k, mode=mode, exc=exc)
-                judge(col, case, choices, f, execute(case, LenientChooser(choices), f))
+                judge(col, case, choices, f, execute(case, LenientChooser(choices), f), None, restoring)
     for k in range(1, npoints + 1):
         for mode in ("instead", "after"):
             for exc in case.get("out_excs", excs):
@@ -261,7 +293,8 @@ def build_cases(tier):
     quick = tier == "quick"
     cases = []
     add = cases.append
-    attr_sets = ["canon-echo", "canon-noecho", "raw-echo-vmin1", "raw-noecho-vmin0-vtime5"]
+    attr_sets = ["canon-echo", "canon-noecho", "raw-echo-vmin1", "raw-noecho-vmin0-vtime5",
+                 "raw-noecho-vmin0-vtime0", "raw-echo-vmin0-vtime0"]
     if not quick:
         attr_sets += ["raw-noecho-vmin3-vtime2", "canon-echo-vmin0"]
     excs = ["KeyboardInterrupt", "OSError"] if quick else ["KeyboardInterrupt", "OSError", "termios.error"]
@@ -348,7 +381,8 @@ def run(ctx):
     ctx.coverage.update(
         base_cases=len(cases),
         attribute_sets={k: dict(zip(("canonical", "echo", "vmin", "vtime"), v)) for k, v in M.ATTR_SETS.items()
-                        if quick is False or k in ("canon-echo", "canon-noecho", "raw-echo-vmin1", "raw-noecho-vmin0-vtime5")},
+                        if quick is False or k in ("canon-echo", "canon-noecho", "raw-echo-vmin1", "raw-noecho-vmin0-vtime5",
+                                                   "raw-noecho-vmin0-vtime0", "raw-echo-vmin0-vtime0")},
         operations=["query_terminal(more: until-c/stop-after-2/raise@1/raise@3/always-true; timeout None/0.05)",
                     "read_tty(timeout None/0/0.05/-1 x min 0/1/3 x echo x more default/stop-after-2/raise@1/raise@2 x input)",
                     "read_tty_all", "get_cell_size (16t / 14t fallback)", "get_fg_bg_colors", "get_terminal_name_version",
@@ -361,7 +395,9 @@ def run(ctx):
         "world.VTty is the tty (attributes only change through tcsetattr); faults strike at environment-call "
         "boundaries (DESIGN section 6)",
         "struct termios compared after normalising Python's int/bytes presentation of control characters",
-        "excluded by definition: a fault injected instead of the restoring tcsetattr itself",
+        "excluded by definition: a fault injected instead of a restoring tcsetattr itself = a tcsetattr(entry attributes) "
+        "made while the attributes differ and after which the (sub-)operation does no more terminal I/O before the "
+        "next attribute change or its end",
         "read_tty parameter combinations that are documented to wait forever (timeout<0 with the default predicate or "
         "without input; min>0 without input) have no fault-free execution and are not enumerated",
     ]
@@ -373,7 +409,7 @@ def replay(ctx, case):
     f = case.get("fault")
     if f:
         obs = execute(c, LenientChooser(case["choices"]), f)
-        judge(ctx, c, case["choices"], f, obs, obs0["npoints"])
+        judge(ctx, c, case["choices"], f, obs, obs0["npoints"], obs0["restoring"])
     else:
         judge(ctx, c, case["choices"], None, obs0)
     world.uninstall()
